@@ -6,10 +6,11 @@ import (
 )
 
 // rewriteSpec turns the contract surface syntax into a plain Go expression:
-//   A ==> B            -> implies(A, B)        (right associative, lowest precedence)
-//   A <==> B           -> iff(A, B)
-//   forall i int :: P  -> forall(func(i int) bool { return P })   (extends to the end of the enclosing group)
-//   exists i int :: P  -> exists(func(i int) bool { return P })
+//
+//	A ==> B            -> implies(A, B)        (right associative, lowest precedence)
+//	A <==> B           -> iff(A, B)
+//	forall i int :: P  -> forall(func(i int) bool { return P })   (extends to the end of the enclosing group)
+//	exists i int :: P  -> exists(func(i int) bool { return P })
 func rewriteSpec(s string) string {
 	return rw(strings.TrimSpace(s))
 }
